@@ -127,3 +127,25 @@ class Modules:
 			module = self.__modules[module_path]
 			self.__loader.unload(module.module_path)
 			del self.__modules[module_path]
+			# アンロードしたモジュールに依存するモジュールは再ロードが必要になるため、併せてアンロード
+			for dependent_path in self.__dependent_paths(module_path):
+				self.unload(dependent_path)
+
+	def __dependent_paths(self, module_path: str) -> list[str]:
+		"""指定のモジュールに依存する読み込み済みのモジュールのパスリストを取得
+
+		Args:
+			module_path: モジュールパス
+		Returns:
+			モジュールパスリスト
+		Note:
+			標準ライブラリーは標準ライブラリー以外の全てのモジュールから暗黙的に依存される
+		"""
+		library_paths = [path.path for path in self.__library_paths]
+		dependent_paths: list[str] = []
+		for path, module in self.__modules.items():
+			import_paths = [import_node.import_path.tokens for import_node in module.entrypoint.imports]
+			if module_path in import_paths or (module_path in library_paths and path not in library_paths):
+				dependent_paths.append(path)
+
+		return dependent_paths
